@@ -6,7 +6,7 @@ import json
 import sys
 
 from . import registry
-from .check import run_rules
+from .check import run_rules, load_known
 from .core import Ctx
 
 
@@ -16,6 +16,8 @@ def main():
     a = ap.parse_args()
     ctx = Ctx(a.repo)
     out = {}
+    # open known findings are suppressed by exact (property, key), as bin/check does: a corpus runner asks what a change adds
+    known = {(k['property'], k['key']) for k in load_known().get('open', [])}
     try:
         for prop in sorted(registry.PROPERTY_RULES):
             try:
@@ -23,7 +25,7 @@ def main():
             except Exception as e:          # infrastructure problem (build failure ...): reported, never a verdict
                 out.setdefault('_infra', []).append('%s: %s: %s' % (prop, type(e).__name__, str(e)[-300:]))
                 continue
-            keys = [f.key for r in res for f in r.findings]
+            keys = [f.key for r in res for f in r.findings if (prop, f.key) not in known]
             if keys:
                 out[prop] = keys
     finally:
